@@ -28,7 +28,7 @@ CHECKS = {
    text="Explicit-state BFS over switch reports (raw/logical, duplicates, NO/NC), handler add/remove with hold times "
         "and time choices on the real SwitchController; reference switch model (state, per-interval pending "
         "deadlines) compared after every transition, including is_active/is_inactive(ms) and configured events.",
-   note="Trusted: virtual loop, reference model in props/c03.py. Bounds: depth 4-5 (quick) / 6-7 (thorough) per switch, "
+   note="Trusted: virtual loop, reference model in props/c03.py. Bounds: depth 4-5 (quick) / 6 (thorough) per switch, "
         "hold times {0,100,200} ms; ignore_window_ms>0 only gets the weaker last-event check.",
    technique="explicit-state BFS of the implementation with a reference model (replay + fork snapshots)",
    ref="3/C03"),
